@@ -1,5 +1,6 @@
 import CanopenModel.Sdo.Client
 import CanopenModel.Sdo.ReadInto
+import CanopenModel.Sdo.Text
 import CanopenModel.Spec.SdoServer
 namespace Canopen.Driver.C01
 open Canopen Canopen.Sdo Canopen.Spec
@@ -90,10 +91,79 @@ def runAll : Chan PS → List Xfer → List String → Chan PS × List String
   | c, [], acc => (c, acc)
   | c, x :: xs, acc => let (c', r) := runXfer c x; runAll c' xs (acc ++ [r])
 
+/-! ### text mode (`open(…, "w"/"r", encoding=…)`) -/
+
+def parseHexNat (s : String) : Option Nat :=
+  if s.isEmpty then none else s.toList.foldlM (fun acc c => (hexVal c).map (acc * 16 + ·)) 0
+
+/-- a text as code points: `-` = the empty text, else hex numbers separated by `.` -/
+def parseCps (s : String) : Option (List Nat) :=
+  if s = "-" then some [] else (s.splitOn ".").mapM parseHexNat
+
+/-- the texts handed to `write`, one per call: `_` = no call at all, else texts separated by `/` -/
+def parseChunks (s : String) : Option (List (List Nat)) :=
+  if s = "_" then some [] else (s.splitOn "/").mapM parseCps
+
+def showCps (l : List Nat) : String :=
+  if l.isEmpty then "-" else String.intercalate "." (l.map fun n => String.ofList (Nat.toDigits 16 n))
+
+def parseEnc (s : String) : Option Enc :=
+  if s = "ascii" then some .ascii else if s = "latin-1" then some .latin1
+  else if s = "utf-8" then some .utf8 else none
+
+def showTErr : TErr → String
+  | .sdo e => showErr e
+  | .unicode => "err unicode"
+
+/-- one text transfer: `D:idx:sub:chunks:sized:force:offers` (download; `sized` declares the number of
+    bytes that reach the stream) or `U:idx:sub:reads` (upload; `reads` = `-`: the reader read to the end,
+    else the number of raw reads after which it stopped) -/
+inductive TXfer where
+  | down (idx sub : Nat) (chunks : List (List Nat)) (sized force : Bool) (offers : List Nat)
+  | up (idx sub : Nat) (reads : Nat)
+
+def parseReads (s : String) : Option Nat := if s = "-" then some 100000 else s.toNat?
+
+def parseTXfer (s : String) : Option TXfer :=
+  match s.splitOn ":" with
+  | ["D", i, j, ch, sz, f, o] => do
+    let i ← i.toNat?; let j ← j.toNat?; let ch ← parseChunks ch; let sz ← parseBool sz; let f ← parseBool f
+    let o ← parseNatList o
+    pure (.down i j ch sz f o)
+  | ["U", i, j, k] => do
+    let i ← i.toNat?; let j ← j.toNat?; let k ← parseReads k
+    pure (.up i j k)
+  | _ => none
+
+def runTXfer (enc : Enc) (c : Chan PS) (x : TXfer) : Chan PS × String :=
+  match x with
+  | .down i j ch sz f o =>
+    match textDownload peer c i j enc ch sz f o with
+    | (c', .ok _) => (c', "ok")
+    | (c', .error e) => (c', showTErr e)
+  | .up i j k =>
+    match textUpload peer c i j enc k with
+    | (c', .ok s) => (c', s!"ok {showCps s}")
+    | (c', .error e) => (c', showTErr e)
+
+def runAllT (enc : Enc) : Chan PS → List TXfer → List String → Chan PS × List String
+  | c, [], acc => (c, acc)
+  | c, x :: xs, acc => let (c', r) := runTXfer enc c x; runAllT enc c' xs (acc ++ [r])
+
 /-- `seq <held> <sizeInd> <exp> <expSize> <cuts> <mode> <xfer;xfer;…>`
-    → `results | reqs | resps | commits | illegal` (the `mode` token only matters to the harness) -/
+    → `results | reqs | resps | commits | illegal` (the `mode` token only matters to the harness);
+    `txt <held> <sizeInd> <exp> <expSize> <cuts> <encoding> <mode> <txfer;txfer;…>`: the same through text mode -/
 def step (args : List String) : String :=
   match args with
+  | ["txt", held, si, ex, es, cuts, enc, _mode, xs] =>
+    match parseHeld held, parseBool si, parseBool ex, parseBool es, parseNatList cuts, parseEnc enc,
+        (xs.splitOn ";").mapM parseTXfer with
+    | some held, some si, some ex, some es, some cuts, some enc, some xs =>
+      let s0 := ssInit held { sizeIndicated := si, expedited := ex, expSize := es, cuts := cuts }
+      let c0 : Chan PS := { peer := (s0, []), queue := [], sent := [] }
+      let (c, rs) := runAllT enc c0 xs []
+      s!"{String.intercalate ";" rs} | {showFrames c.sent} | {showFrames c.peer.2} | {showCommits c.peer.1.commits} | {showIllegal c.peer.1.illegal}"
+    | _, _, _, _, _, _, _ => "bad-op"
   | ["seq", held, si, ex, es, cuts, _mode, xs] =>
     match parseHeld held, parseBool si, parseBool ex, parseBool es, parseNatList cuts, (xs.splitOn ";").mapM parseXfer with
     | some held, some si, some ex, some es, some cuts, some xs =>
